@@ -14,7 +14,12 @@ META = {
             "database/sql driver) against the model, by lexing every executed statement with the Lean lexer, and by "
             "model-free oracles on a SQLite database with a canary table (canary/schema unchanged, no canary data in "
             "responses, EXPLAIN: only the addressed table opened, rows affected = independent filter evaluation, "
-            "hostile row values stored verbatim).",
+            "hostile row values stored verbatim), and by a stream of filters that are malformed by construction (one structural "
+            "defect -- operator with too many / too few / no operands, missing or extra parenthesis, dangling comma, missing or "
+            "unknown operator, sign before a non-number, non-term token, trailing text -- in an operand at every position of the "
+            "AND/OR/NOT/HAS lists around it, optionally a second missing parenthesis, optionally behind a quoted term with a "
+            "backslash-quote): no builder or handler accepts one, and whatever is accepted is executed against the canary "
+            "database and lexed like every other statement.",
     "note": "The model mirrors the code WITH fixes/C14.patch applied; the unrepaired tree is refuted by the oracles "
             "(sort/count( pass-through, quote-combining filters, signed-constant pass-through, unquoted table name in the "
             "metadata query) and by C14_unfixed_*_counterexample. Trusted: Lean kernel; the harness; SQLite (modernc) as "
@@ -93,8 +98,10 @@ def run(ctx):
                 "with a double quote around live SQL) for every identifier position; the builders' statement texts are lexed like "
                 "the executed ones; req: requests through ReadRows/DeleteRows/UpdateRows/InsertRows, "
                 "abstract variants and transaction tasks (incl. drop, given names that are no table); half carry a filter with a known meaning (exact row sets checked), half "
-                "are hostile and carry a guard filter that matches nothing; non-trivial = distinct request that is hostile or "
-                "contains a quote, ';' or '-'",
+                "are hostile and carry a guard filter that matches nothing; malformed: filters with a structural defect by construction "
+                "(counters defect_*), into WhereClause / FormSelectorDeleteQuery (malformed_gen_inputs) and, next to the guard filter, "
+                "through every handler that takes a filter (malformed_requests) -- none may be accepted; non-trivial = distinct request "
+                "that is hostile or contains a quote, ';' or '-', or distinct malformed filter",
         "samples": st.get("samples", []),
         "counters": c,
     })
